@@ -41,6 +41,9 @@ func (e *Enc) background(n int) string {
 	if e.needFP {
 		b.WriteString(fpPrelude)
 	}
+	if e.needBE {
+		b.WriteString("(declare-fun be_of ((Array Ref Int) Slice) Int)\n")
+	}
 	for _, d := range e.dtypes {
 		b.WriteString(d + "\n")
 	}
